@@ -665,8 +665,8 @@ def do_check(root, reg, prop, tier, seed, args):
 
 def write_evidence(prop, tier, seed, sel, results, group_info, violations, known_hits, inconclusive, wall):
     os.makedirs(EVIDENCE_DIR, exist_ok=True)
-    obligations = sum(r.get("checks_total", 0) for r in results.values())
-    discharged = sum(r.get("checks_passed", 0) + r.get("checks_unreachable", 0) + r.get("covers_satisfied", 0)
+    obligations = sum((r.get("checks_total") or 0) for r in results.values())
+    discharged = sum((r.get("checks_passed") or 0) + (r.get("checks_unreachable") or 0) + (r.get("covers_satisfied") or 0)
                      for r in results.values() if r["status"] == "proved")
     reachable_user = 0
     samples = []
@@ -674,7 +674,7 @@ def write_evidence(prop, tier, seed, sel, results, group_info, violations, known
     for h in sel:
         r = results.get(h.name, {})
         functions.update(f for f in r.get("functions", []) if f and not f.startswith(("std::", "core::", "kani::", "alloc::", "<")))
-        reach = r.get("checks_passed", 0) + r.get("covers_satisfied", 0)
+        reach = (r.get("checks_passed") or 0) + (r.get("covers_satisfied") or 0)
         reachable_user += 1 if (r.get("status") == "proved" and reach > 0) else 0
         samples.append({
             "harness": h.name, "crate": h.crate, "appended_to": h.src_rel, "status": r.get("status"),
@@ -682,10 +682,10 @@ def write_evidence(prop, tier, seed, sel, results, group_info, violations, known
             "encodes": h.meta.get("encodes", ""), "bounds": h.meta.get("bounds", ""),
             "assumes": h.meta.get("assumes", ""), "stubs": h.meta.get("stubs", ""),
             "spec": h.meta.get("spec", ""), "instantiation": h.meta.get("inst", ""),
-            "cbmc_checks": r.get("checks_total", 0), "cbmc_checks_reachable_passed": r.get("checks_passed", 0),
+            "cbmc_checks": (r.get("checks_total") or 0), "cbmc_checks_reachable_passed": (r.get("checks_passed") or 0),
             "cover_witnesses": f"{r.get('covers_satisfied', 0)}/{r.get('covers_total', 0)}",
-            "vccs_generated": r.get("vccs", 0), "vccs_after_slicing": r.get("vccs_remaining", 0),
-            "solver_s": r.get("solver_s", 0), "symex_s": r.get("symex_s", 0), "verification_s": r.get("duration_s", 0),
+            "vccs_generated": (r.get("vccs") or 0), "vccs_after_slicing": (r.get("vccs_remaining") or 0),
+            "solver_s": (r.get("solver_s") or 0), "symex_s": (r.get("symex_s") or 0), "verification_s": (r.get("duration_s") or 0),
             "failed_checks": r.get("failed", []), "replay": r.get("replay"), "known_finding": r.get("known_finding"),
         })
     assumptions = sorted({a for h in sel for a in [h.meta.get("assumes", "")] if a and a != "none"})
@@ -696,7 +696,7 @@ def write_evidence(prop, tier, seed, sel, results, group_info, violations, known
         "level": "model_checking",
         "coverage": {
             "evaluations": obligations,
-            "distinct_nontrivial": sum(r.get("checks_passed", 0) + r.get("covers_satisfied", 0)
+            "distinct_nontrivial": sum((r.get("checks_passed") or 0) + (r.get("covers_satisfied") or 0)
                                        for r in results.values() if r["status"] == "proved"),
             "rule": "bounded model checking (Kani 0.68 -> CBMC 6.11 -> CaDiCaL) of the real functions compiled from /repo's current tree; "
                     "evaluations = CBMC properties (panic/overflow/bounds/unwinding checks + harness assertions + cover witnesses) generated over "
@@ -713,8 +713,8 @@ def write_evidence(prop, tier, seed, sel, results, group_info, violations, known
             "harnesses_proved": sum(1 for r in results.values() if r["status"] == "proved"),
             "harnesses_not_completed": [{"harness": n, "why": w} for n, w in inconclusive],
             "functions_encoded": sorted(functions)[:400],
-            "solver_time_s": round(sum(r.get("solver_s", 0) for r in results.values()), 2),
-            "verification_time_s": round(sum(r.get("duration_s", 0) for r in results.values()), 2),
+            "solver_time_s": round(sum((r.get("solver_s") or 0) for r in results.values()), 2),
+            "verification_time_s": round(sum((r.get("duration_s") or 0) for r in results.values()), 2),
             "invocations": group_info,
             "known_findings_hit": [k["id"] for k in known_hits],
             "exhaustive": False,
